@@ -93,6 +93,9 @@ pub fn components(o: &mut Out, r: &mut Rng, tx: &Transaction, mutants: usize) {
 pub fn run(o: &mut Out, tier: &str, seed: u64) {
     let mut r = Rng::new(seed);
     let (n_tx, n_mut, n_blocks) = if tier == "thorough" { (2500, 24, 400) } else { (500, 14, 80) };
+    // deterministic small-scope sweep of transaction shapes first (every dispatch path on every run), with two mutations each
+    for s in gen::sweep_shapes() { let tx = gen::tx_of(&mut r, &s); let b = serialize(&tx); o.stat("gen.shape-sweep"); dec_case(o, "tx", &b, "valid");
+        for _ in 0..2 { let m = gen::mutate(&mut r, &b); dec_case(o, "tx", &m, "mutated"); } }
     for it in 0..n_tx {
         let tx = gen::tx(&mut r); let b = serialize(&tx);
         o.stat(&format!("gen.v{}.rct{}", tx.prefix.version.0, tx.rct_signatures.sig.as_ref().map(|s| gen::rct_num(s.rct_type) as i32).unwrap_or(-1)));
